@@ -23,7 +23,17 @@ func init() {
 		}
 		var parts []string
 		for _, st := range stmts {
-			parts = append(parts, walkTrace(st, mask))
+			t := walkTrace(st, mask)
+			// history: a walk that its visitor aborts (panic, recovered by the caller) must not
+			// influence a later walk; if it does, the later trace is what is reported
+			for _, k := range []int{1, 2, 5} {
+				abortedWalk(st, k)
+				if t2 := walkTrace(st, mask); t2 != t {
+					t = t2
+					break
+				}
+			}
+			parts = append(parts, t)
 		}
 		return fmt.Sprintf("%d", len(stmts)) + func() string {
 			if len(parts) == 0 {
@@ -59,4 +69,19 @@ func walkTrace(root parser.Node, mask string) (res string) {
 		return ans
 	})
 	return
+}
+
+type walkAbort struct{}
+
+// abortedWalk walks root and panics out of the visitor at its k-th call
+func abortedWalk(root parser.Node, k int) {
+	defer func() { recover() }()
+	i := 0
+	parser.Walk(root, func(n parser.Node) bool {
+		i++
+		if i >= k {
+			panic(walkAbort{})
+		}
+		return true
+	})
 }
